@@ -112,3 +112,38 @@ def NFA.virgin (n : NFA) (s : Nat) : Prop :=
   (n.st s).chars = [] ∧ (n.st s).ranges = [] ∧ (n.st s).eps = [] ∧ (n.st s).any = [] ∧ (n.st s).eoi = []
 
 end Lexgen
+
+namespace Lexgen
+
+/-! ## A rule set as a list of variable-free rules -/
+
+structure CoreRule where
+  re : Regex
+  ctx : Option Nat
+  value : Nat
+
+/-- the NFA `compile_rule_set` builds: one `add_regex` per rule, in order -/
+def buildNfa (rules : List CoreRule) : Except CompileError NFA :=
+  rules.foldlM (fun n r => n.addRegex r.re r.ctx r.value) NFA.new
+
+open Classical in
+/-- accept entries of the rules whose regex denotes `w`, in rule order -/
+noncomputable def matchingAccs (rules : List CoreRule) (w : List Sym) : List Acc :=
+  (rules.filter (fun r => decide (den r.re w))).map (fun r => { value := r.value, ctx := r.ctx })
+
+/-- the rules of a rule set after variable substitution, with the right-context indices the macro
+assigns (sequentially, starting from `firstCtx`), in source order; `none` when a substitution fails -/
+def coreRules (items : List RuleOrBinding) (b : Bindings) (firstCtx : Nat) : Option (List CoreRule) :=
+  match items with
+  | [] => some []
+  | .binding name re :: rest => coreRules rest (b ++ [(name, re)]) firstCtx
+  | .rule r :: rest =>
+    match inlineVars b (b.length + 1) r.re with
+    | .error _ => none
+    | .ok re =>
+      let (ctx, next) := match r.ctx with
+        | some _ => (some firstCtx, firstCtx + 1)
+        | none => (none, firstCtx)
+      (coreRules rest b next).map fun l => { re := re, ctx := ctx, value := r.rhs } :: l
+
+end Lexgen
